@@ -1140,6 +1140,10 @@ class Engine:
     def e_Name(self, node, st):
         if node.id in st.env:
             return st.env[node.id]
+        if self.c.locals_.get(node.id) is TObj and node.id not in self.c.params:
+            # a module-level object the function only reads (declared in contract.locals_ as an opaque object and never
+            # assigned - an assignment would have put it into the environment): one fixed constant per name
+            return Val(TObj, z3.Const(f"global:{node.id}", TObj.sort()))
         raise Unsupported(f"unknown name {node.id}", node)
 
     def e_Attribute(self, node, st):
@@ -1677,6 +1681,14 @@ class Engine:
                     r = a.t == TObj.lit(None)
                 else:
                     r = z3.BoolVal(isinstance(a.ty, TNoneT))
+                return r if isinstance(op, ast.Is) else z3.Not(r)
+            if isinstance(a.ty, TRec) and getattr(a.ty, "identity", None) and b.ty is TObj:
+                a = self.coerce(a, TObj, st, node)  # an object seen through a record view: its identity
+            if isinstance(b.ty, TRec) and getattr(b.ty, "identity", None) and a.ty is TObj:
+                b = self.coerce(b, TObj, st, node)
+            if a.ty is TObj and b.ty is TObj:
+                # identity of two opaque objects: the terms of the sort stand for the objects themselves
+                r = a.t == b.t
                 return r if isinstance(op, ast.Is) else z3.Not(r)
             raise Unsupported("identity comparison with a non-None value", node)
         if isinstance(op, (ast.In, ast.NotIn)):
